@@ -1,20 +1,24 @@
-\* t_hb: see checks/ringlookup_common.py (UNIVERSES) for what this universe is for
+\* t_hb: all five states x all three heartbeat classes, 3 single-token instances, zones 0..2
+\* (generated from UNIVERSES in checks/ringlookup_common.py: python3 checks/ringlookup_common.py --write-cfgs)
 CONSTANTS
   NK = 4
   Gaps = {1}
   N = 3
   MaxTok = 1
   MaxIdle = 0
-  Z = 0
+  Z = 2
   StateSet = {"ACTIVE", "LEAVING", "PENDING", "JOINING", "LEFT"}
   HbSet = {"fresh", "edge", "stale"}
-  RFMax = 3
+  RFMax = 5
   Canon = 2
   WithRemove = FALSE
+  Excl = {}
   EmitOn = TRUE
+  EmitSets = FALSE
+  XMax = 0
 INIT Init
 NEXT Next
 VIEW View
-INVARIANTS TypeOK SizeOK ZoneOK ClockwiseFirst SlackExact WalkDefsAgree QuorumIntersection Emit
+INVARIANTS TypeOK SizeOK ZoneOK ClockwiseFirst SlackExact WalkDefsAgree QuorumIntersection ExpandedOK Emit
 PROPERTIES MinimalDisruption
 CHECK_DEADLOCK FALSE
